@@ -318,3 +318,6 @@ impl<'de> serde::Deserialize<'de> for SharedBytes {
         deserializer.deserialize_byte_buf(Visitor)
     }
 }
+
+#[cfg(kani)]
+include!(concat!(env!("ASSETS_MANAGER_VERIF"), "/incrate/utils_bytes.rs"));
